@@ -94,6 +94,12 @@ class Finders:
       found = self._search_link(gfa_line.oriented_from, gfa_line.oriented_to,
                                 gfa_line.alignment)
       if found is not None:
+        if found.virtual:
+          # the ID of the link shall be unique also if the link
+          # replaces a virtual link, created for a path
+          byname = self.line(gfa_line.name)
+          if byname is not None and not byname.virtual:
+            return byname
         return found
     if gfa_line.record_type in self.RECORDS_WITH_NAME:
       return self.line(gfa_line.name)
